@@ -1,9 +1,1 @@
 package main
-
-import "fmt"
-
-func runDag(prop string, seed int64, n int, driver, out string, maxFail int, file string) int {
-	fmt.Println("not implemented")
-	return 2
-}
-
